@@ -69,13 +69,13 @@ def canary(ctx, events):
         cur.append(e)
     if cur:
         groups.append(cur)
-    for g in groups:
-        r = g[-1]
-        if r["ev"] == "Result" and r["cok"] and r["sok"] and any(e["ev"] == "SMSG" and e["t"] == 2 for e in g):
-            good = g
-            break
+    # the designated plainly compliant scenario is the last one of the batch (appended by run_nego)
+    g = groups[-1]
+    r = g[-1]
+    if r["ev"] == "Result" and r["cok"] and r["sok"] and any(e["ev"] == "SMSG" and e["t"] == 2 for e in g):
+        good = g
     if good is None:
-        raise vlib.Machinery("canary: no successful scenario available to corrupt")
+        raise vlib.Machinery("canary: the plain compliant handshake of the batch did not succeed: %r" % (r,))
     bad = json.loads(json.dumps(good))
     for e in bad:
         if e["ev"] == "SMSG" and e["t"] == 2:
@@ -115,7 +115,7 @@ def run_nego(ctx, mode, ekm=0, subset=None, extra_scn=None, shards=8):
     can.update({"mode": "compliant", "id": "Chrome-133", "ver": 772, "suite": 4865, "group": 29, "cert": "ecdsa", "alpn": [],
                 "force_suite": 0, "force_group": 0, "force_alpn": "", "hrr_cookie": 0, "legacy_only": False, "canary": 0,
                 "sid_echo": "", "compression": 0, "psk_index": 0, "hrr_group": 0,
-                "alps_cp": 0, "alps12": False, "client_alps": "", "alps_settings": [], "remove_sni": False})
+                "alps_cp": 0, "alps12": False, "client_alps": "", "alps_settings": [], "remove_sni": False, "client_auth": 0, "resume": False})
     scns = scns + [can]
     for i, s in enumerate(scns):
         s["sc"] = i
